@@ -355,13 +355,14 @@ def run_items(prop, tier, seed, items, expected, verbose=False,
                          '(random, domain corners, solver-completed); NOT proved' % (ob.detail, valid))
     # triage of refuted obligations
     confirmed = 0
+    kf_ = [f for f in load_known().get('findings', []) if f['property'] == prop]
     for ob in eng.obligations:
         if ob.status == 'violation' and getattr(ob, 'contract', None) \
                 is not None and ob.replay is None:
             try:
                 triage(eng, ob, tier, seed, expected, search=confirmed < 3)
-                if ob.status == 'violation':
-                    confirmed += 1
+                if ob.status == 'violation' and not match_known(kf_, ob.name, ob.model):
+                    confirmed += 1      # known findings do not settle the verdict
             except Exception as e:
                 eng.errors.append('triage %s: %s' % (ob.name, e))
                 ob.status = 'undecided'
